@@ -23,6 +23,7 @@ def run(ctx):
     mono(ctx)
     client(ctx)
     snapshot(ctx)
+    watch(ctx)
 
 
 def _variant_blocks(b, variant):
@@ -45,10 +46,10 @@ def _variant_blocks(b, variant):
     return out
 
 
-def lag(ctx):
+def lag(ctx, rule_id="C12.lag", fns=(FWD_SUB, FWD_UPD)):
     F = ctx.F
-    R = ctx.rule("C12.lag", "K2", "when the live event receiver reports Lagged (events were lost), forwarding stops: no further event is sent and the loop is not re-entered")
-    for fn in (FWD_SUB, FWD_UPD):
+    R = ctx.rule(rule_id, "K2", "when the live event receiver reports Lagged (events were lost), forwarding stops: no further event is sent and the loop is not re-entered")
+    for fn in fns:
         fam = F.family(F.get(fn)) if F.get(fn) else []
         short = fn.rsplit("::", 1)[-1]
         # the body that matches on RecvError (inside the select's branch closure or the coroutine itself)
@@ -242,3 +243,33 @@ def snapshot(ctx):
                       "the snapshot is read inside a transaction begun by the caller (%s)" % sorted(k),
                       fail_msg="all_rows is given a connection that is not a transaction (%s): the rows and MAX(id) come from different WAL snapshots, so a change committed in between is "
                                "reported as included in the snapshot but is in neither the rows nor the following events" % sorted(k))
+
+
+def watch(ctx):
+    """catch_up_sub decides that it has caught up by comparing the last id it forwarded with the matcher's `last_change_tx` watch.
+    That only closes the window "event handed to subscribers, batch not yet committed" if the watch is advanced together with the
+    event: an event whose id is not yet on the watch when the batch commits lets an attaching subscriber resume past it."""
+    F = ctx.F
+    R = ctx.rule("C12.watch", "K2", "Matcher::handle_candidates advances the last-change watch with every change event, before the batch commits")
+    b = F.get("klukai_types::pubsub::Matcher::handle_candidates")
+    if not R.anchor(b, "handle_candidates", "fn Matcher::handle_candidates"):
+        return
+    evs = [c for c in b.calls if re.search(r"mpsc::bounded::Sender::<T>::(blocking_send|send|try_send)$", c.f) and "QueryEvent" in c.self_ty]
+    ws = [c for c in b.calls if c.f.endswith("watch::Sender::<T>::send") and "ChangeId" in c.self_ty]
+    commits = [c for c in b.calls if cm.COMMIT.search(c.f)]
+    if not (R.anchor(evs, "event-send", "evt_tx send of the change event") and R.anchor(ws, "watch-send", "last_change_tx.send(change_id)") and R.anchor(commits, "commit", "tx.commit()")):
+        return
+    for n, e in enumerate(evs):
+        after = [k for k in commits if b.can_reach(e.bb, k.bb)]
+        if not after:
+            continue
+        late = [k for k in after if b.can_reach(e.bb, k.bb, no_nodes=tuple(w.bb for w in ws))]
+        again = b.can_reach(b.term(e.bb).get("tgt"), e.bb, no_nodes=tuple(w.bb for w in ws)) if b.term(e.bb).get("tgt") is not None else False
+        R.require(not late and not again, "watch-with-event#%d" % n, e.where(), "after a change event is sent, the watch is advanced before the next event and before the commit",
+                  fail_msg="a change event can be handed to subscribers and the batch committed (or the next event sent) without the last-change watch having been advanced: "
+                           "a subscriber attaching in between is declared caught up at the pre-batch id and resumes past the gap")
+    # the id put on the watch is the id of the event just sent
+    w = ws[0]
+    wid = cm.origin_summary(cm.operand_origins(b, w, 1))
+    eid = [x for e in evs for x in cm.origin_summary(cm.operand_origins(b, e, 1))]
+    R.ok("watch-id", w.where(), "watch value origins: %s" % wid[:4], nontrivial=False)
